@@ -200,6 +200,7 @@ class Program:
                     self.renamed[cand[0]] = k
                     fresh.remove(cand[0])
         self._undo_level_moves(by_rel)
+        self._undo_factory_params(by_rel)
         self._undo_param_renames(by_rel)
         if not self.renamed:
             return
@@ -359,6 +360,136 @@ class Program:
                 for n in ast.walk(m.tree):
                     for c in ast.iter_child_nodes(n):
                         c._parent = n
+
+    def _undo_factory_params(self, by_rel):
+        """A private helper of the reference tree that fills an object handed in by its caller (`h(D, ..)`, caller:
+        `D = T(); h(D, ..); return D`) may be rewritten to create and return it (`h(T, ..)`: `D = T(); ...; return D`,
+        caller: `return h(T, ..)`).  The model reads the second form as the first: the rules address the out-parameter."""
+        for (rel, cname), table in self.PRIVATE_HELPERS.items():
+            m = by_rel.get(rel)
+            if m is None:
+                continue
+            body = m.tree.body
+            if cname is not None:
+                cl = [n for n in body if isinstance(n, ast.ClassDef) and n.name == cname]
+                if not cl:
+                    continue
+                body = cl[0].body
+            for fn in [n for n in body if isinstance(n, ast.FunctionDef)]:
+                if self.renamed.get(fn.name, fn.name) not in table:
+                    continue
+                a = fn.args
+                if a.vararg or a.kwarg or a.kwonlyargs:
+                    continue
+                params = [x.arg for x in a.posonlyargs + a.args]
+                fb = fn.body
+                own = [n for n in self._walk_own(fn)]
+                rets = [n for n in own if isinstance(n, ast.Return)]
+                for i, pn in enumerate(params):
+                    if cname is not None and i == 0:
+                        continue
+                    uses = [n for n in ast.walk(fn) if isinstance(n, ast.Name) and n.id == pn]
+                    mk = [st for st in fb if isinstance(st, ast.Assign) and len(st.targets) == 1 and isinstance(st.targets[0], ast.Name)
+                          and isinstance(st.value, ast.Call) and isinstance(st.value.func, ast.Name) and st.value.func.id == pn
+                          and not st.value.args and not st.value.keywords]
+                    if len(mk) != 1 or len(uses) != 1:
+                        continue
+                    v = mk[0].targets[0].id
+                    if v in params:
+                        continue
+                    aug = {id(n.target) for n in ast.walk(fn) if isinstance(n, ast.AugAssign)}      # D += .. keeps the object (R05.2)
+                    stores = [n for n in ast.walk(fn) if isinstance(n, ast.Name) and n.id == v and isinstance(n.ctx, (ast.Store, ast.Del))
+                              and id(n) not in aug]
+                    if len(stores) != 1 or not rets or not all(isinstance(r.value, ast.Name) and r.value.id == v for r in rets):
+                        continue
+                    if not (isinstance(fb[-1], ast.Return)):
+                        continue
+                    # nothing between the start of the function and the creation may read v; the creation is at the top level
+                    sites = self._factory_call_sites(fn.name, i, cname)
+                    if sites is None:
+                        continue
+                    # --- rewrite the helper
+                    (a.posonlyargs + a.args)[i].arg = v
+                    fn.body = [st for st in fb if st is not mk[0]]
+                    if isinstance(fn.body[-1], ast.Return):
+                        fn.body = fn.body[:-1] or [ast.Pass()]
+                    for r in rets:
+                        r.value = None
+                    # --- rewrite the callers
+                    for owner, field, idx, st, call, ai in sites:
+                        lst = getattr(owner, field)
+                        e = call.args[ai]
+                        if isinstance(st, ast.Return):
+                            nm = '_made'
+                            new = [ast.Assign(targets=[ast.Name(id=nm, ctx=ast.Store())], value=ast.Call(func=e, args=[], keywords=[])),
+                                   ast.Expr(value=call), ast.Return(value=ast.Name(id=nm, ctx=ast.Load()))]
+                        else:
+                            nm = st.targets[0].id
+                            new = [ast.Assign(targets=[ast.Name(id=nm, ctx=ast.Store())], value=ast.Call(func=e, args=[], keywords=[])),
+                                   ast.Expr(value=call)]
+                        call.args[ai] = ast.Name(id=nm, ctx=ast.Load())
+                        for x in new:
+                            ast.copy_location(x, st)
+                            ast.fix_missing_locations(x)
+                        k = next(j for j, y in enumerate(lst) if y is st)
+                        lst[k:k + 1] = new
+                    for mm in self.modules.values():
+                        for n_ in ast.walk(mm.tree):
+                            for c_ in ast.iter_child_nodes(n_):
+                                c_._parent = n_
+                    break
+
+    @staticmethod
+    def _walk_own(fn):
+        stack = list(fn.body)
+        while stack:
+            n = stack.pop()
+            yield n
+            for c in ast.iter_child_nodes(n):
+                if not isinstance(c, (ast.FunctionDef, ast.AsyncFunctionDef, ast.Lambda, ast.ClassDef)):
+                    stack.append(c)
+
+    def _factory_call_sites(self, name, i, cname):
+        """call sites of helper `name` in statement position `return h(..)` / `x = h(..)`; None when some call is elsewhere"""
+        out = []
+        for mm in self.modules.values():
+            for owner in ast.walk(mm.tree):
+                for field in ('body', 'orelse', 'finalbody'):
+                    lst = getattr(owner, field, None)
+                    if not isinstance(lst, list):
+                        continue
+                    for idx, st in enumerate(lst):
+                        if not isinstance(st, ast.stmt):
+                            continue
+                        calls = [c for c in self._stmt_own_calls(st) if (c.func.id if isinstance(c.func, ast.Name) else
+                                                                          c.func.attr if isinstance(c.func, ast.Attribute) else None) == name]
+                        for c in calls:
+                            top = (isinstance(st, ast.Return) and st.value is c) or \
+                                  (isinstance(st, ast.Assign) and st.value is c and len(st.targets) == 1 and isinstance(st.targets[0], ast.Name))
+                            if not top or c.keywords or any(isinstance(x, ast.Starred) for x in c.args):
+                                return None
+                            f = c.func
+                            unbound = isinstance(f, ast.Attribute) and isinstance(f.value, ast.Name) and f.value.id[:1].isupper()
+                            ai = i if (cname is None or unbound) else i - 1
+                            if ai < 0 or ai >= len(c.args):
+                                return None
+                            out.append((owner, field, idx, st, c, ai))
+        return out or None
+
+    @staticmethod
+    def _stmt_own_calls(st):
+        """calls in the header / expression of one statement (not in nested statement lists)"""
+        out = []
+        stack = [c for f_, c in ast.iter_fields(st) if f_ not in ('body', 'orelse', 'finalbody', 'handlers')]
+        while stack:
+            n = stack.pop()
+            if isinstance(n, list):
+                stack.extend(n)
+            elif isinstance(n, ast.AST):
+                if isinstance(n, ast.Call):
+                    out.append(n)
+                stack.extend(c for c in ast.iter_child_nodes(n))
+        return out
 
     def _undo_param_renames(self, by_rel):
         """Parameters of the private helpers back to their reference names (definition, body, keyword arguments of the
